@@ -76,6 +76,7 @@ def shards(tier):
             for pc in range(len(POINTCFG)):
                 out.append({'start': si, 'poly': poly, 'pc': pc})
     out.append({'degenerate': True})
+    out.append({'edge': True})
     for poly in POLYS:
         out.append({'dense': True, 'poly': poly})
     return out
@@ -111,6 +112,13 @@ def run_shard(shard, ctx, tier):
             for poly in POLYS:
                 guarded_check(mod, {'degenerate': di, 'poly': poly}, ctx)
         return
+    if shard.get('edge'):
+        for ei in range(len(EDGE)):
+            for poly in POLYS:
+                for lh in (16, 48):
+                    for d in (-1, 0, 1):
+                        guarded_check(mod, {'edge': ei, 'poly': poly, 'lh': lh, 'd': d}, ctx)
+        return
     if shard.get('dense'):
         for n in DENSE_N:
             for sl in (0, 3, 4):           # slopes 0 and +-0.5: with a point every second pixel the rounded points stay exactly collinear
@@ -125,6 +133,53 @@ def run_shard(shard, ctx, tier):
                     for sc in b['scales']:
                         guarded_check(mod, {'start': shard['start'], 'poly': shard['poly'], 'pc': shard['pc'], 'dx': dx, 'slope': sl,
                                             'h': hi, 'lh': lh, 'scale': sc}, ctx)
+
+
+# lines whose band lies off the page except for ONE row / column of samples (d = 0), or just not / just two (d = -1 / +1); heights (12, 4), scale 1
+EDGE = [('top-row-on-the-last-page-row', lambda d: [[100, IMG_H - 1 + 12 - d], [200, IMG_H - 1 + 12 - d]]),
+        ('first-column-on-the-last-page-column', lambda d: [[IMG_W - 1 - d, 300], [IMG_W + 59 - d, 300]]),
+        ('bottom-row-on-the-first-page-row', lambda d: [[100, -4 + d], [200, -4 + d]]),
+        ('last-column-on-the-first-page-column', lambda d: [[-60 + d, 300], [d, 300]]),
+        ('corner-sample-on-the-last-page-pixel', lambda d: [[IMG_W - 1 - d, IMG_H - 1 + 12 - d], [IMG_W + 59 - d, IMG_H - 1 + 12 - d]])]
+
+
+def check_edge(case, ctx):
+    """fast vs. general path at the page border: the crop from the page must equal the crop from the page embedded in a larger canvas; the
+    second crop is requested with THE SAME baseline array object shifted in place (callers move lines that way)"""
+    from pero_ocr.core.crop_engine import EngineLineCropper
+    name, mk = EDGE[case['edge']]
+    pts = mk(case['d'])
+    lh, poly = case['lh'], case['poly']
+    eng = EngineLineCropper(line_height=lh, poly=poly, scale=1.0)
+    img = coord_image()
+    ox, oy = 70, 50
+    big = coord_image(IMG_H, IMG_W, ox, oy, IMG_H + 110, IMG_W + 140)
+    b = np.asarray(pts, dtype=np.float64)
+    hts = np.asarray([12.0, 4.0])
+    desc = f'baseline {pts} ({name}, offset {case["d"]}), heights (12, 4), poly={poly}, line_height={lh}, scale=1'
+    ctx.state(('edge', case['edge'], case['d'], lh, poly))
+    crop = eng.crop(img, b, hts)
+    b += np.asarray([ox, oy], dtype=np.float64)            # in place
+    crop2 = eng.crop(big, b, hts)
+    fresh = EngineLineCropper(line_height=lh, poly=poly, scale=1.0).crop(big, np.asarray(pts, dtype=np.float64) + np.asarray([ox, oy]), hts)
+    ctx.executed(3)
+    K = f'{ID}/poly{poly}'
+    if crop2.shape != fresh.shape or not np.array_equal(crop2, fresh):
+        ctx.violation('same-crop-on-every-call', f'{K}/baseline-array-moved-in-place-is-cropped-at-its-old-position',
+                      f'{desc}: the baseline array was shifted in place by ({ox},{oy}) and cropped again by the same cropper: {crop2.shape}, a fresh '
+                      f'cropper gives {fresh.shape}' + ('' if crop2.shape != fresh.shape else f' (max difference {float(np.abs(crop2 - fresh).max())})'))
+        return
+    if crop.shape[0] != lh or crop.shape != fresh.shape or np.abs(crop.astype(np.float64) - fresh.astype(np.float64)).max() > 0.2:
+        worst = float(np.abs(crop.astype(np.float64) - fresh.astype(np.float64)).max()) if crop.shape == fresh.shape else None
+        ctx.violation('same-pixels-on-fast-and-general-path', f'{K}/shifted-crop-differs/band-touching-the-page-border',
+                      f'{desc}: the crop from the page has {int((crop[:, :, 2] > 0.5).sum())} samples with page content, the crop of the same line '
+                      f'from the page embedded in a larger canvas {int((fresh[:, :, 2] > 0.5).sum())} (shapes {crop.shape} / {fresh.shape}, max difference {worst})')
+        return
+    n = int((fresh[:, :, 2] > 0.5).sum())
+    ctx.outcome(('edge', case['edge'], case['d'], n > 0))
+    if case['d'] == 0 and 0 < n <= max(fresh.shape[0], fresh.shape[1]):
+        ctx.nontrivial(('edge', case['edge'], lh, poly), 'band-touching-the-page-by-one-row-or-column')
+    ctx.tag('baseline-array-moved-in-place')
 
 
 def check_degenerate(case, ctx):
@@ -179,6 +234,8 @@ def check_degenerate(case, ctx):
 def check_case(case, ctx):
     if 'degenerate' in case:
         return check_degenerate(case, ctx)
+    if 'edge' in case:
+        return check_edge(case, ctx)
     import cv2
     from pero_ocr.core.crop_engine import EngineLineCropper
     pts = baseline_points(case['start'], case['dx'], SLOPES[case['slope']], case['pc'], dense=case.get('dense'))
@@ -435,6 +492,6 @@ def describe(tier):
                         'the last column may fall up to 1 px short of the last baseline point (integer sampling of the baseline)',
                         'for degenerate baselines both a proper crop and a blank image of the configured height are accepted'],
         'min_nontrivial': 100,
-        'required_tags': ['consecutive-crops-of-equal-shape', 'baselines-with-more-than-64-points', 'curved-baselines', 'cubic-with-4-or-more-points', 'general-path-vs-fast-path', 'fast-path-vs-full-remap',
+        'required_tags': ['band-touching-the-page-by-one-row-or-column', 'baseline-array-moved-in-place', 'consecutive-crops-of-equal-shape', 'baselines-with-more-than-64-points', 'curved-baselines', 'cubic-with-4-or-more-points', 'general-path-vs-fast-path', 'fast-path-vs-full-remap',
                           'degenerate-baselines', 'cropped-twice', 'line-cropper-partly-outside', 'baseline-dtypes', 'page-cropped-again-after-the-layout-changed'],
     }
